@@ -21,7 +21,7 @@ def wrapper_shapes():
 
 SHAPES = wrapper_shapes()
 assert len(SHAPES) == 14, SHAPES
-W_KINDS = {"str": "String", "enm": "Kind", "obj": "User", "ifc": "Node", "uni": "U"}
+W_KINDS = {"str": "String", "enm": "Kind", "obj": "User", "ifc": "Node", "uni": "U", "blb": "Blob"}
 
 
 def w_fields():
@@ -244,7 +244,7 @@ def enumerate_ops(k_by_position, rich=True, stats=None, validate_ops=True):
         stats.update(candidates=cand, invalid=invalid, valid=n)
 
 
-W_SUBSEL = {"str": "", "enm": "", "obj": " { id }", "ifc": " { id ... on User { name } }", "uni": " { ... on User { id } ... on Admin { level } }"}
+W_SUBSEL = {"blb": "", "str": "", "enm": "", "obj": " { id }", "ifc": " { id ... on User { name } }", "uni": " { ... on User { id } ... on Admin { level } }"}
 
 
 def w_ops():
@@ -269,7 +269,7 @@ type Team implements Entity { id: ID! title: String! lead: Actor members: [Membe
 union Member = Person | Robot
 union Thing = Person | Robot | Team
 type Page { items: [Thing]! next: Page total: Int! }
-type RootQuery { me: Person! actor(id: ID!): Actor team(id: ID!): Team things(first: Int = 10): Page! members: [[Member!]!] }
+type RootQuery { me: Person! actor(id: ID!): Actor entity(id: ID!): Entity team(id: ID!): Team things(first: Int = 10): Page! members: [[Member!]!] }
 type RootMutation { rename(id: ID!, to: String!): Actor! disband(id: ID!): Team }
 """
 K2_OPS = [
@@ -299,6 +299,83 @@ def k2_ops():
     for text in K2_OPS:
         name = text.split("(")[0].split("{")[0].split()[1]
         out.append(Op(name, text.split("\n")[0], text + "\n", {"family:K2", f"k2:{name}"}, "$v" in text, set(), "k2"))
+    return out
+
+
+K2_OWN = {"Entity": "id", "Actor": "displayName", "Person": "status", "Robot": "model", "Team": "title", "Member": "__typename", "Thing": "__typename"}
+K2_POS = [("Person", "me", "{}"), ("Actor", 'actor(id: "1")', "{}"), ("Entity", 'entity(id: "1")', "{}"), ("Team", 'team(id: "t")', "{}"),
+          ("Thing", "things", "{{ items {} }}"), ("Member", 'team(id: "t")', "{{ members {} }}")]
+
+
+def k2_matrix(level=2):
+    """Typed spread matrix over K2: every position type P x every fragment type F overlapping P x every type G overlapping F,
+    in the shapes direct spread / inline fragment / fragment-in-fragment / fragment-in-inline / inline-in-fragment; plus every
+    two-operation document in which both operations spread the same fragment (state shared between operations)."""
+    from graphql import do_types_overlap
+    sch = schema_k2()
+    T = {n: sch.type_map[n] for n in K2_OWN}
+    out = []
+
+    def kind(n):
+        from graphql import is_interface_type, is_union_type
+        return "u" if is_union_type(T[n]) else "i" if is_interface_type(T[n]) else "o"
+
+    def rel(a, b):
+        """how type b relates to type a: same / super (b is an abstract type a belongs to or implements) / sub / sibling (merely overlapping)"""
+        from graphql import is_abstract_type
+        if a == b:
+            return "same"
+        if is_abstract_type(T[b]) and sch.is_sub_type(T[b], T[a]):
+            return "super"
+        if is_abstract_type(T[a]) and sch.is_sub_type(T[a], T[b]):
+            return "sub"
+        return "sibling"
+
+    def add(name, body, frs, tags):
+        text = f"query {name} {body}"
+        out.append(Op(name, text, "\n".join([text] + frs) + "\n", {"family:K2", "k2matrix"} | tags, False, set(), "k2"))
+    k = 0
+    for P, field, wrap in K2_POS:
+        def at(sel):
+            return "{ " + field + " " + wrap.format("{ " + sel + " }").replace("{{", "{").replace("}}", "}") + " }"
+        for F in K2_OWN:
+            if not do_types_overlap(sch, T[P], T[F]):
+                continue
+            r1 = f"{kind(P)}>{rel(P, F)}_{kind(F)}"
+            base = {f"pos:{P}", f"frag:{F}", f"m:{P}>{F}", f"rel:{r1}"}
+            k += 1
+            add(f"M{k}", at("...FA"), [f"fragment FA on {F} {{ {K2_OWN[F]} }}"], (base - {f"rel:{r1}"}) | {"shape:spread", f"rel:spread:{r1}"})
+            k += 1
+            add(f"M{k}", at(f"... on {F} {{ {K2_OWN[F]} }}"), [], (base - {f"rel:{r1}"}) | {"shape:inline", f"rel:inline:{r1}"})
+            if level < 2:
+                continue
+            for G in K2_OWN:
+                if not do_types_overlap(sch, T[F], T[G]):
+                    continue
+                t2 = (base - {f"rel:{r1}"}) | {f"inner:{G}", f"m:{P}>{F}>{G}"}
+                r2 = f"{r1}>{rel(F, G)}_{kind(G)}"
+                k += 1
+                add(f"M{k}", at("...FA"), [f"fragment FA on {F} {{ {K2_OWN[F]} ...FB }}", f"fragment FB on {G} {{ {K2_OWN[G]} id }}" if G in ("Person", "Robot", "Team", "Entity", "Actor") else f"fragment FB on {G} {{ {K2_OWN[G]} }}"],
+                    t2 | {"shape:spread>spread", f"rel:spread>spread:{r2}"})
+                if do_types_overlap(sch, T[P], T[G]):
+                    k += 1
+                    add(f"M{k}", at(f"... on {F} {{ ...FB }}"), [f"fragment FB on {G} {{ {K2_OWN[G]} }}"], t2 | {"shape:inline>spread", f"rel:inline>spread:{r2}"})
+                k += 1
+                add(f"M{k}", at("...FA"), [f"fragment FA on {F} {{ {K2_OWN[F]} ... on {G} {{ {K2_OWN[G]} }} }}"], t2 | {"shape:spread>inline", f"rel:spread>inline:{r2}"})
+    # two operations sharing one fragment; the operation generated second is the one evaluated
+    shared = [("FS", F, f"fragment FS on {F} {{ {K2_OWN[F]} }}") for F in K2_OWN] + \
+             [("FSI", F, f"fragment FSI on {F} {{ {K2_OWN[F]} ... on Robot {{ model }} }}") for F in ("Entity", "Actor", "Member", "Thing")]
+    for fname, F, ftext in shared:
+        poss = [(P, field, wrap) for P, field, wrap in K2_POS if do_types_overlap(sch, T[P], T[F])]
+        for (P1, f1, w1) in poss:
+            for (P2, f2, w2) in poss:
+                k += 1
+                a = "{ " + f1 + " " + w1.format("{ ..." + fname + " }").replace("{{", "{").replace("}}", "}") + " }"
+                b = "{ " + f2 + " " + w2.format("{ ..." + fname + " }").replace("{{", "{").replace("}}", "}") + " }"
+                name = f"M{k}"
+                text = f"query {name}First {a}\nquery {name} {b}"
+                out.append(Op(name, text, text + "\n" + ftext + "\n", {"family:K2", "k2matrix", "shape:two_ops_shared_fragment", f"frag:{F}", f"m2:{P1}+{P2}>{F}", f"rel2:{kind(P1)}>{rel(P1, F)}+{kind(P2)}>{rel(P2, F)}_{kind(F)}",
+                                                                       "shared_with_inline" if fname == "FSI" else "shared_plain"}, False, set(), "k2"))
     return out
 
 
